@@ -25,9 +25,9 @@ func init() {
 		Level: "exploration",
 		Rule: "FinalizeToken(s) on (request state, response) pairs for types 1,2,3,5: honest responses, every single-bit flip of each honest response (exhaustive), the full cross-pairing matrix of K states x K responses over 2-3 issuer keys, truncations/extensions, " +
 			"and for type 5 every single-element drop, duplication, adjacent and seeded swaps, appended element, foreign proof. Universal oracle on every call: a nil error implies the token verifies under the key the request was created for (circl FullEvaluate / crypto/rsa.VerifyPSS) and carries that request's type, nonce, SHA-256(challenge) and key id. " +
-			"Rejection oracle: every listed corruption must return an error. distinct_nontrivial = distinct (type, corruption class, state, position) keys",
+			"Rejection oracle: every listed corruption must return an error. Lifecycle part: up to 4 requests of one type outstanding at once, created and finalized (garbage, bit-flipped and honest responses, evaluated from the wire bytes captured at creation) in seeded interleavings; every honest finalization must succeed with the token of its own request. distinct_nontrivial = distinct (type, corruption class, state, position) keys",
 		Floors: []string{"accepted_valid", "rejected_by_decode", "rejected_by_proof", "rejected_by_count", "rejected_by_aead", "rejected_by_rsa_check",
-			"type1_bitflips", "type2_bitflips", "type3_bitflips", "type5_bitflips", "cross_pair_rejected", "type5_drop_rejected", "type5_dup_rejected", "type5_swap_rejected"},
+			"type1_bitflips", "type2_bitflips", "type3_bitflips", "type5_bitflips", "cross_pair_rejected", "type5_drop_rejected", "type5_dup_rejected", "type5_swap_rejected", "lifecycle_sequences", "lifecycle_honest_finalized"},
 		Assumptions: []string{"single-bit flips change the mathematical response (argued in DESIGN.md C02); nonces in a batch are distinct so swaps are never of equal elements"},
 		Run:         runC02,
 	})
@@ -373,6 +373,7 @@ func runC02(c *core.Ctx) {
 		c.Distinctf("type5:structure:%d", i)
 		c.Sample("type5 structure attacks", map[string]any{"state": p.st.label, "elements": nb})
 	}
+	c02Lifecycle(c)
 }
 
 func rsaTokVerifier(pub *rsa.PublicKey, typ uint16, nonce, challenge, kid []byte) func(tokens.Token) error {
@@ -391,4 +392,216 @@ func splitType5Response(resp []byte, n int) (prefix []byte, elems [][]byte, proo
 		elems = append(elems, resp[k+32*i:k+32*(i+1)])
 	}
 	return resp[:k], elems, resp[k+32*n:]
+}
+
+// ---------------------------------------------------------------- lifecycle interleavings
+//
+// Several requests outstanding at once, created and finalized in interleaved
+// order, with failing finalizations in between: every successful finalization
+// must still return the token of *its own* request. (State shared between
+// requests - pooled buffers, package-level scratch - only shows this way.)
+
+type lcReq struct {
+	st   *c02State
+	eval func() ([]byte, error)
+}
+
+func c02Lifecycle(c *core.Ctx) {
+	setup := c.Rng("lifecycle-setup")
+	rk := RSAKeys()
+	curve := elliptic.P384()
+	k1 := VOPRFKey(oprf.SuiteP384, setup.Bytes(32))
+	k5 := VOPRFKey(oprf.SuiteRistretto255, setup.Bytes(32))
+	iss3 := type3.NewRateLimitedIssuer(rk[2])
+	iss3.AddOrigin("origin.example")
+	factories := map[string]func(r *core.Rand) *lcReq{
+		"type1": func(r *core.Rand) *lcReq {
+			iss := type1.NewBasicPrivateIssuer(k1)
+			ch, nonce, kid := r.Bytes(r.IntN(40)), r.Bytes(32), iss.TokenKeyID()
+			st, err := type1.NewBasicPrivateClient().CreateTokenRequest(ch, nonce, kid, iss.TokenKey())
+			must(err)
+			wire := clone(st.Request().Marshal())
+			return &lcReq{&c02State{typ: 1, label: "t1", nonces: [][]byte{nonce}, challenge: ch, keyID: kid, authLen: 48,
+				finalize: func(b []byte) ([]tokens.Token, error) {
+					t, err := st.FinalizeToken(b)
+					if err != nil {
+						return nil, err
+					}
+					return []tokens.Token{t}, nil
+				},
+				verifyTok: func(t tokens.Token) error {
+					if !bytes.Equal(t.Authenticator, RefVOPRF(oprf.SuiteP384, k1, ref.TokenBytes(1, nonce, ch, kid, nil))) {
+						return fmt.Errorf("authenticator != VOPRF(key, token input)")
+					}
+					return nil
+				}},
+				func() ([]byte, error) {
+					q := new(type1.BasicPrivateTokenRequest)
+					if !q.Unmarshal(clone(wire)) {
+						return nil, fmt.Errorf("undecodable")
+					}
+					return iss.Evaluate(q)
+				}}
+		},
+		"type2": func(r *core.Rand) *lcReq {
+			key := rk[0]
+			iss := type2.NewBasicPublicIssuer(key)
+			ch, nonce, kid := r.Bytes(r.IntN(40)), r.Bytes(32), iss.TokenKeyID()
+			st, err := type2.NewBasicPublicClient().CreateTokenRequest(ch, nonce, kid, iss.TokenKey())
+			must(err)
+			wire := clone(st.Request().Marshal())
+			return &lcReq{&c02State{typ: 2, label: "t2", nonces: [][]byte{nonce}, challenge: ch, keyID: kid, authLen: 256,
+				finalize: func(b []byte) ([]tokens.Token, error) {
+					t, err := st.FinalizeToken(b)
+					if err != nil {
+						return nil, err
+					}
+					return []tokens.Token{t}, nil
+				},
+				verifyTok: rsaTokVerifier(&key.PublicKey, 2, nonce, ch, kid)},
+				func() ([]byte, error) {
+					q := new(type2.BasicPublicTokenRequest)
+					if !q.Unmarshal(clone(wire)) {
+						return nil, fmt.Errorf("undecodable")
+					}
+					return iss.Evaluate(q)
+				}}
+		},
+		"type5": func(r *core.Rand) *lcReq {
+			iss := type5.NewBatchedPrivateIssuer(k5)
+			ch, kid := r.Bytes(r.IntN(40)), iss.TokenKeyID()
+			nb := 1 + r.IntN(4)
+			nonces := make([][]byte, nb)
+			for i := range nonces {
+				nonces[i] = r.Bytes(32)
+			}
+			st, err := type5.NewBatchedPrivateClient().CreateTokenRequest(ch, nonces, kid, iss.TokenKey())
+			must(err)
+			wire := clone(st.Request().Marshal())
+			return &lcReq{&c02State{typ: 5, label: "t5", nonces: nonces, challenge: ch, keyID: kid, authLen: 64,
+				finalize: st.FinalizeTokens,
+				verifyTok: func(t tokens.Token) error {
+					for _, n := range nonces {
+						if bytes.Equal(n, t.Nonce) && bytes.Equal(t.Authenticator, RefVOPRF(oprf.SuiteRistretto255, k5, ref.TokenBytes(5, n, ch, kid, nil))) {
+							return nil
+						}
+					}
+					return fmt.Errorf("authenticator != VOPRF(key, token input)")
+				}},
+				func() ([]byte, error) {
+					q := new(type5.BatchedPrivateTokenRequest)
+					if !q.Unmarshal(clone(wire)) {
+						return nil, fmt.Errorf("undecodable")
+					}
+					return iss.Evaluate(q)
+				}}
+		},
+		"type3": func(r *core.Rand) *lcReq {
+			key := rk[2]
+			ch, nonce, kid := r.Bytes(r.IntN(40)), r.Bytes(32), iss3.TokenKeyID()
+			cl := type3.NewRateLimitedClientFromSecret(ScalarBytes(r, curve.Params().N, 48))
+			st, err := cl.CreateTokenRequest(ch, nonce, ScalarBytes(r, curve.Params().N, 48), kid, iss3.TokenKey(), "origin.example", iss3.NameKey())
+			must(err)
+			wire := clone(st.Request().Marshal())
+			return &lcReq{&c02State{typ: 3, label: "t3", nonces: [][]byte{nonce}, challenge: ch, keyID: kid, authLen: 256,
+				finalize: func(b []byte) ([]tokens.Token, error) {
+					t, err := st.FinalizeToken(b)
+					if err != nil {
+						return nil, err
+					}
+					return []tokens.Token{t}, nil
+				},
+				verifyTok: rsaTokVerifier(&key.PublicKey, 3, nonce, ch, kid)},
+				func() ([]byte, error) {
+					resp, _, err := iss3.Evaluate(clone(wire))
+					return resp, err
+				}}
+		},
+	}
+	n := c.Pick(40, 1200)
+	for _, name := range []string{"type1", "type2", "type3", "type5"} {
+		mk := factories[name]
+		for i := 0; i < n; i++ {
+			if !c.Next() {
+				continue
+			}
+			r := c.CaseRng()
+			var live []*lcReq
+			var script []string
+			steps := 6 + r.IntN(10)
+			for s := 0; s < steps; s++ {
+				op := r.IntN(4)
+				if len(live) == 0 || (op == 0 && len(live) < 4) {
+					q := mk(r)
+					q.st.label = fmt.Sprintf("%s#%d", q.st.label, len(live))
+					live = append(live, q)
+					script = append(script, "create "+q.st.label)
+					continue
+				}
+				q := live[r.IntN(len(live))]
+				switch op {
+				case 1: // garbage response
+					script = append(script, "finalize-garbage "+q.st.label)
+					c02Call(c, q.st, r.Bytes(r.Of(0, 5, 97, 145, 256, 288)), "lifecycle:garbage", true)
+				case 2: // corrupted honest response
+					resp, err := q.eval()
+					if err != nil {
+						c.Violation(name+":lifecycle:evaluate-error", "the issuer refused an honest request in an interleaved run: "+err.Error(), map[string]any{"script": script})
+						continue
+					}
+					script = append(script, "finalize-bitflip "+q.st.label)
+					c02Call(c, q.st, flipBit(resp, r.IntN(len(resp)*8-24)), "lifecycle:bitflip", false)
+				default: // honest response: must succeed and belong to this request
+					resp, err := q.eval()
+					if err != nil {
+						c.Violation(name+":lifecycle:evaluate-error", "the issuer refused an honest request in an interleaved run: "+err.Error(), map[string]any{"script": script})
+						continue
+					}
+					script = append(script, "finalize-honest "+q.st.label)
+					before := c.Cases()
+					_ = before
+					c02CallExpectSuccess(c, q.st, resp, script)
+				}
+			}
+			c.Class("lifecycle_sequences")
+			c.Distinctf("%s:lifecycle:%d", name, i)
+			if i == 0 {
+				c.Sample(name+" interleaved lifecycle", script)
+			}
+		}
+	}
+}
+
+// c02CallExpectSuccess: an honest response to a still outstanding request must finalize, to that request's token.
+func c02CallExpectSuccess(c *core.Ctx, st *c02State, resp []byte, script []string) {
+	c.Eval(1)
+	var toks []tokens.Token
+	var err error
+	pan, pv, where := core.Guard(func() { toks, err = st.finalize(clone(resp)) })
+	d := map[string]any{"type": st.typ, "state": st.label, "script": script, "response": core.Hex(resp)}
+	if pan {
+		c.Violation(fmt.Sprintf("type%d:lifecycle:panic:%s", st.typ, where), "finalization panicked: "+pv, d)
+		return
+	}
+	if err != nil {
+		c.Violation(fmt.Sprintf("type%d:lifecycle:honest-rejected", st.typ), "the honest response to an outstanding request was rejected after other requests were created or finalized in between: "+err.Error(), d)
+		return
+	}
+	if len(toks) != len(st.nonces) {
+		c.Violation(fmt.Sprintf("type%d:lifecycle:wrong-count", st.typ), "wrong number of tokens", d)
+		return
+	}
+	for j, tok := range toks {
+		if cls, dd := checkTokenLayout(tok, st.typ, st.nonces[j], st.challenge, st.keyID, st.authLen); cls != "" {
+			d["token_problem"], d["index"] = dd, j
+			c.Violation(fmt.Sprintf("type%d:lifecycle:foreign-token", st.typ), "finalization returned a token that does not carry its own request's nonce/challenge digest/key id ("+cls+")", d)
+			return
+		}
+		if verr := st.verifyTok(tok); verr != nil {
+			c.Violation(fmt.Sprintf("type%d:lifecycle:invalid-token", st.typ), "finalization returned a token that does not verify: "+verr.Error(), d)
+			return
+		}
+	}
+	c.Class("lifecycle_honest_finalized")
+	c.Class("accepted_valid")
 }
